@@ -78,11 +78,14 @@ def cases(tier, seed, rng):
         if k % 5 == 0:
             for ltype in ('tagged', 'untagged', 'indexed'):
                 if ltype == 'indexed':
-                    fshape = [rng.choice([npos, npos, npos + 1, max(1, npos - 1)]), rng.choice([1, 3])]
+                    fshape = [rng.choice([npos, npos, npos + 1, npos + 3, max(1, npos - 1)]), rng.choice([1, 3])]
                     fd = [G.Dim('T', fshape[0], rng, False), G.Dim('S', fshape[1], rng, False)]
                 else:
                     fshape, fd = G.make_array(rng, rank=len(shape) if rng.random() < 0.7 else None)
                 sel = [rng.randrange(npos) for _ in range(rng.choice([1, 2]))]
+                # a position index that does not exist (also where the feature itself has that many rows), alone or in a list
+                if rng.random() < 0.3: sel.insert(rng.randrange(len(sel) + 1), npos + rng.randrange(3))
+                if rng.random() < 0.15: sel = [npos + rng.randrange(3)]
                 batch.append(mline('mtag_feat', shape, dims, pos, flat, ext, units, lst([str(x) for x in sel]), rng.choice(['excl', 'incl']),
                                    ' %s %s %s' % (ltype, lst([str(x) for x in fshape]), lst([d.tok() for d in fd]))))
         if len(batch) >= 150:
